@@ -40,7 +40,8 @@ def gen_segment_history(rng, n, strict=False, reject=False):
         elif k == 8:
             ops.append(['remove', rng.randrange(0, 4)])
         elif k == 9:
-            ops.append(rng.choice([['copy', name.lower(), val], ['copy', name.lower(), val], ['reattach', name, val], ['add_twice', name, val], ['setelem_attached', name, val]]))
+            ops.append(rng.choice([['copy', name.lower(), val], ['copy', name.lower(), val], ['reattach', name, val], ['add_twice', name, val], ['setelem_attached', name, val],
+                                   ['setparent', name, val], ['setparent_none', rng.randrange(0, 4)], ['settrav_replace', name, val]]))
         elif k == 10:
             ops.append(['setlong', name, val])
         else:
@@ -50,7 +51,7 @@ def gen_segment_history(rng, n, strict=False, reject=False):
                 ['add_wrongclass'], ['set_wrongname', 'nk1_2' if seg != 'NK1' else 'pid_3', 'X'], ['add_otherlevel', name, val],
                 ['add_otherversion', name, val], ['del', '%s_%d' % (seg.lower(), 19)], ['set', 'foo_1', 'X'], ['set_elem_wrongname', name.lower()],
                 ['replace_otherlevel', name.lower(), val], ['add_overflow', '%s_1' % seg, '1'], ['set_invalid_strict', name.lower()],
-                ['datatype_populated', name.lower()], ['deli', name.lower(), 7]]))
+                ['datatype_populated', name.lower()], ['deli', name.lower(), 7], ['setparent_otherlevel', name, val]]))
     return {'root': 'segment', 'segment': seg, 'version': '2.5', 'strict': strict, 'ops': ops}
 
 
@@ -118,8 +119,16 @@ class Spec:
             out.append('~'.join(by.get(i, [])))
         return '|'.join(out)
 
-    def enc_message(self):
-        return '\r'.join(t for _, t in self.items)
+    def enc_message(self, order=None):
+        """TOLERANT: insertion order.  STRICT (`order` = the structure's child names): the per-name lists of repetitions
+        in structure order, then the children the structure does not name, in insertion order"""
+        if order is None:
+            return '\r'.join(t for _, t in self.items)
+        out = []
+        for nm in order:
+            out += [t for n, t in self.items if n == nm]
+        out += [t for n, t in self.items if n not in order]
+        return '\r'.join(out)
 
 
 # ---------------------------------------------------------------- invariants of the reachable graph (C10)
@@ -187,6 +196,7 @@ def run_history(h):
     """returns a list of per-op records: {op, outcome, enc, spec, inv, atomic}"""
     from hl7apy.core import Segment, Field, Message, Component
     from hl7apy.consts import VALIDATION_LEVEL as VL
+    from hl7apy.core import is_base_datatype
     lvl = VL.STRICT if h['strict'] else VL.TOLERANT
     other_lvl = VL.TOLERANT if h['strict'] else VL.STRICT
     v = h['version']
@@ -258,6 +268,38 @@ def run_history(h):
                 extra.append(('other', other))
                 setattr(root, op[1].lower(), f)
                 spec.set(op[1], op[2])
+            elif kind == 'setparent':
+                # the public `parent` setter on a field that is a child of another segment (finding D26)
+                f = Field(op[1], version=v, validation_level=lvl)
+                f.value = op[2]
+                other.add(f)
+                extra.append(('other', other))
+                f.parent = root
+                spec.add(op[1], op[2])
+            elif kind == 'setparent_none':
+                c = root.children[op[1]]
+                extra.append(('detached', c))
+                c.parent = None
+                spec.remove_at(op[1])
+            elif kind == 'setparent_otherlevel':
+                f = Field(op[1], version=v, validation_level=other_lvl)
+                f.value = op[2]
+                extra.append(f)
+                f.parent = root
+            elif kind == 'settrav_replace':
+                # a not-yet-materialised (traversal) field replaces an existing repetition (finding D25)
+                nm = op[1].lower()
+                if len(getattr(root, nm)) == 0:
+                    fld = getattr(getattr(root, nm), nm + '_1').traversal_parent
+                    g = root.add_field(op[1])
+                    spec.add(op[1], '')
+                    substep()
+                    g.value = op[2]
+                    spec.items[-1] = (op[1], op[2])
+                    substep()
+                    getattr(root, nm)[0] = fld
+                    spec.set(op[1], '', 0)
+                    extra.append(('listed', fld))
             elif kind == 'add_twice':
                 f = Field(op[1], version=v, validation_level=lvl)
                 f.value = op[2]
@@ -324,7 +366,9 @@ def run_history(h):
                 spec.set(op[1].upper(), 'x' * 2000)
             elif kind == 'datatype_populated':
                 p = getattr(root, op[1])
-                if len(p):
+                # only where the change must be refused: a populated element of a complex datatype (on a base datatype
+                # the library allows it, and the old value is then not encoded any more - outside C09/C12)
+                if len(p) and not is_base_datatype(p[0].datatype, v):
                     p[0].datatype = 'XPN' if p[0].datatype != 'XPN' else 'CX'
             # ---- message-level
             elif kind == 'mset':
@@ -380,6 +424,15 @@ def run_history(h):
         inv = invariants(root)
         half = []
         for x in extra:
+            if isinstance(x, tuple) and x[0] == 'detached':
+                if x[1].parent is not None or any(x[1] is y for y in root.children):
+                    inv = inv + ['detached-child-still-listed:%s' % x[1].name]
+                continue
+            if isinstance(x, tuple) and x[0] == 'listed':
+                if x[1].parent is not root or x[1].traversal_parent is not None or \
+                        any(x[1] is y for l in root.children.traversal_indexes.values() for y in l):
+                    inv = inv + ['promoted-child-half-attached:%s' % x[1].name]
+                continue
             if isinstance(x, tuple):
                 inv = inv + ['other-parent:' + b for b in invariants(x[1])]
                 for c in x[1].children:
@@ -389,7 +442,7 @@ def run_history(h):
             if x.parent is not None and not any(x is c for c in x.parent.children):
                 half.append('half-attached:%s' % x.name)
         rec = {'op': op, 'exc': exc, 'enc': after[0], 'children': after[1], 'inv': inv + half,
-               'spec': spec.enc_segment(h['segment']) if h['root'] == 'segment' else spec.enc_message(),
+               'spec': spec.enc_segment(h['segment']) if h['root'] == 'segment' else spec.enc_message(list(root.ordered_children) if h['strict'] else None),
                'atomic': (after == before and not half) if exc is not None else None,
                'read_noop': (after == before) if kind == 'read' else None}
         recs.append(rec)
